@@ -5,27 +5,49 @@
 import time
 import z3
 
-def symset(t, out=None, seen=None):
-    """names of the uninterpreted constants / functions occurring in t, and whether non-BV theories occur"""
-    if out is None: out = set()
-    if seen is None: seen = set()
-    stack = [t]
+from z3 import z3core as _c
+_ctx = z3.main_ctx().ref()
+_cache = {}        # ast id -> frozenset of symbol names ('@uf' marks non-BV theories); roots are kept alive in _keep
+_keep = []
+_INT_SORT, _REAL_SORT, _BV_SORT, _BOOL_SORT = _c.Z3_INT_SORT, _c.Z3_REAL_SORT, _c.Z3_BV_SORT, _c.Z3_BOOL_SORT
+
+def symset(t):
+    """names of the uninterpreted constants / functions occurring in t (memoised on every sub-term, raw C API)"""
+    root = t.as_ast()
+    rid = _c.Z3_get_ast_id(_ctx, root)
+    r = _cache.get(rid)
+    if r is not None: return r
+    _keep.append(t)
+    stack = [(root, rid, False)]
     while stack:
-        x = stack.pop()
-        i = x.get_id()
-        if i in seen: continue
-        seen.add(i)
-        if z3.is_app(x):
-            d = x.decl()
-            if d.kind() == z3.Z3_OP_UNINTERPRETED:
-                out.add(d.name())
-                if x.num_args() > 0 or not z3.is_bv(x) and not z3.is_bool(x): out.add('@uf')
-            elif z3.is_int(x) or z3.is_real(x):
-                out.add('@uf')
-            for k in range(x.num_args()): stack.append(x.arg(k))
-        elif z3.is_quantifier(x):
-            out.add('@uf'); stack.append(x.body())
-    return out
+        a, aid, done = stack.pop()
+        if aid in _cache: continue
+        kind = _c.Z3_get_ast_kind(_ctx, a)
+        if kind == _c.Z3_APP_AST:
+            app = _c.Z3_to_app(_ctx, a)
+            n = _c.Z3_get_app_num_args(_ctx, app)
+            kids = [_c.Z3_get_app_arg(_ctx, app, i) for i in range(n)]
+            kid_ids = [_c.Z3_get_ast_id(_ctx, k) for k in kids]
+            if not done:
+                missing = [(k, i, False) for k, i in zip(kids, kid_ids) if i not in _cache]
+                if missing:
+                    stack.append((a, aid, True)); stack.extend(missing); continue
+            out = set()
+            for i in kid_ids: out |= _cache[i]
+            d = _c.Z3_get_app_decl(_ctx, app)
+            sk = _c.Z3_get_sort_kind(_ctx, _c.Z3_get_sort(_ctx, a))
+            if _c.Z3_get_decl_kind(_ctx, d) == _c.Z3_OP_UNINTERPRETED:
+                out.add(_c.Z3_get_symbol_string(_ctx, _c.Z3_get_decl_name(_ctx, d)) if _c.Z3_get_symbol_kind(_ctx, _c.Z3_get_decl_name(_ctx, d)) == _c.Z3_STRING_SYMBOL
+                        else 'k!%d' % _c.Z3_get_symbol_int(_ctx, _c.Z3_get_decl_name(_ctx, d)))
+                if n > 0 or sk not in (_BV_SORT, _BOOL_SORT): out.add('@uf')
+            elif sk in (_INT_SORT, _REAL_SORT): out.add('@uf')
+            _cache[aid] = frozenset(out)
+        elif kind == _c.Z3_NUMERAL_AST:
+            sk = _c.Z3_get_sort_kind(_ctx, _c.Z3_get_sort(_ctx, a))
+            _cache[aid] = frozenset(('@uf',)) if sk in (_INT_SORT, _REAL_SORT) else frozenset()
+        else:
+            _cache[aid] = frozenset(('@uf',))
+    return _cache[rid]
 
 class MultiModel:
     def __init__(self, models): self.models = models
@@ -63,8 +85,8 @@ class PathSolver:
             if z3.is_true(f): continue
             if z3.is_and(f):
                 self.add(*f.children()); continue
-            ss = symset(f) - {'@uf'} | ({'@uf'} if '@uf' in symset(f) else set())
-            self.asserts.append((f, frozenset(ss)))
+            ss = symset(f)
+            self.asserts.append((f, ss))
             self.union(s for s in ss if s != '@uf')
     def assertions(self): return [f for f, _ in self.asserts]
     def component(self, roots):
